@@ -13,6 +13,7 @@ import (
 	"strings"
 
 	"golang.org/x/tools/go/packages"
+	"golang.org/x/tools/go/ssa"
 	"golang.org/x/tools/go/types/typeutil"
 )
 
@@ -339,4 +340,41 @@ func (p *Prog) infoOf(rel string) *types.Info {
 		return pk.TypesInfo
 	}
 	return nil
+}
+
+// globalArrayInts reads the initialiser of a package-level one-dimensional array (or slice) of
+// integer constants: index -> value, keyed (`A1: LongWhite`) or positional; elements not
+// mentioned are zero. ok=false when the initialiser is not such a literal.
+func (p *Prog) globalArrayInts(g *ssa.Global) (map[int64]int64, bool) {
+	if g == nil || g.Pkg == nil {
+		return nil, false
+	}
+	init, pk := p.pkgVarInit(relPkg(g.Pkg.Pkg.Path()) + "." + g.Name())
+	if init == nil || pk == nil {
+		return nil, false
+	}
+	cl, ok := ast.Unparen(init).(*ast.CompositeLit)
+	if !ok {
+		return nil, false
+	}
+	out := map[int64]int64{}
+	next := int64(0)
+	for _, el := range cl.Elts {
+		val := el
+		if kv, ok := el.(*ast.KeyValueExpr); ok {
+			k, ok := constInt(pk.TypesInfo, kv.Key)
+			if !ok {
+				return nil, false
+			}
+			next = k
+			val = kv.Value
+		}
+		v, ok := constInt(pk.TypesInfo, val)
+		if !ok {
+			return nil, false
+		}
+		out[next] = v
+		next++
+	}
+	return out, true
 }
